@@ -30,7 +30,8 @@ import (
 // system; one public input; deletion deeper than 31 refused everywhere.
 type C12 struct {
 	base
-	guardSwept bool
+	guardSwept       bool
+	guardPK, guardVK []byte // genuine, loadable Groth16 keys (of a small deletion system) for the import-path guard probe
 }
 
 func init() { register(&C12{base: base{id: "C12", level: "exploration"}}) }
@@ -437,6 +438,41 @@ func (c *C12) depthGuard(x *engine.Ctx) *engine.Violation {
 	os.WriteFile(filepath.Join(dir, "vk"), []byte("x"), 0o644)
 	if ps, err := prover.ImportDeletionSetup(uint32(depth), uint32(batch), filepath.Join(dir, "pk"), filepath.Join(dir, "vk")); err == nil || ps != nil {
 		return engine.Violatef("C12/deep-deletion-circuit-not-refused/import-path", "ImportDeletionSetup(%d,%d) succeeded", depth, batch)
+	}
+	// The same on the import path with key files that actually LOAD (keys made elsewhere, for other dimensions):
+	// with unreadable keys a refusal proves nothing about the depth guard - the key loader refuses anyway.
+	if t.Chance(1, 2) {
+		if c.guardPK == nil {
+			g, err := gtier.Setup(rollup.Deletion, 2, 1, 0)
+			if err != nil {
+				panic(err)
+			}
+			var pk, vk bytes.Buffer
+			if _, err := g.PS.ProvingKey.WriteTo(&pk); err != nil {
+				panic(err)
+			}
+			if _, err := g.PS.VerifyingKey.WriteTo(&vk); err != nil {
+				panic(err)
+			}
+			c.guardPK, c.guardVK = pk.Bytes(), vk.Bytes()
+		}
+		pk2, vk2 := filepath.Join(dir, "pk2"), filepath.Join(dir, "vk2")
+		os.WriteFile(pk2, c.guardPK, 0o644)
+		os.WriteFile(vk2, c.guardVK, 0o644)
+		x.S.Eval(2)
+		x.S.Count("probe:depth_guard_import_path_with_loadable_keys")
+		if ps, err := prover.ImportDeletionSetup(uint32(depth), uint32(batch), pk2, vk2); err == nil || ps != nil {
+			return engine.Violatef("C12/deep-deletion-circuit-not-refused/import-path", "ImportDeletionSetup(%d,%d) with loadable key files returned err=%v system-present=%v", depth, batch, err, ps != nil)
+		}
+		out := filepath.Join(dir, "import.out")
+		r := ops.Run(ops.Cmd{Args: []string{"import-setup", "--mode", "deletion", "--tree-depth", strconv.Itoa(depth), "--batch-size", strconv.Itoa(batch), "--pk", pk2, "--vk", vk2, "--output", out}, RandSeed: "g"})
+		x.Log.Addf("cli", "import-setup", "deletion depth %d exit=%d", depth, r.Exit)
+		if r.Exit == 0 {
+			return engine.Violatef("C12/deep-deletion-circuit-not-refused/cli-import-setup", "`gnark-mbu import-setup --mode deletion --tree-depth %d` with loadable keys exited 0", depth)
+		}
+		if st, err := os.Stat(out); err == nil && st.Size() > 0 {
+			return engine.Violatef("C12/deep-deletion-circuit-not-refused/cli-import-setup-leaves-file", "`gnark-mbu import-setup` exited %d but left a %d-byte output file", r.Exit, st.Size())
+		}
 	}
 	for _, sub := range []string{"setup", "r1cs"} {
 		out := filepath.Join(dir, sub+".out")
